@@ -31,7 +31,19 @@ Round-3 families (same Coq terms; the realisation stays a bijection on the atoms
     object (Overloaded.register) instead of Dataset.register.
   * the "implement" style and an optional 5th element of "interface" name the public spelling used for
     the definition: the decorators, a class statement with metaclass=Implementation / Interface
-    (types.new_class = what a class statement does), or a direct call of the metaclass."""
+    (types.new_class = what a class statement does), or a direct call of the metaclass.
+
+Round-4 family (same Coq terms again: the KIND of mapping a dictionary is handed over as is a representation
+of the same key -> value function):
+  * an "eval" operation may carry a 5th element, a "with_options" operation a 5th element: the kind of mapping
+    the caller's dictionary / the pre-set dictionary is realised as (`MAPPING_KINDS`: OrderedDict, a dict
+    subclass, collections.defaultdict with several factories, a dict subclass with __missing__, a
+    collections.ChainMap spread over several maps (with shadowed entries below), a UserDict, a user
+    collections.abc.Mapping).  Options is `Mapping[str, JSON]`: the implementation a dispatch selects must not
+    depend on the kind.  Kinds the UNCHANGED library does not accept at the top level of a dataset call are left
+    out (types.MappingProxyType: confectioner.mix cannot copy it and raises MixError)."""
+import collections
+import collections.abc
 import copy
 import types as pytypes
 from decimal import Decimal
@@ -123,6 +135,83 @@ def alias_enc(enc):
 def akey(a):
     """hashable form of a scenario alias (pairs arrive as JSON lists)"""
     return tuple(a) if isinstance(a, list) else a
+
+
+# ----------------------------------------------------------------------------- kinds of mappings (round 4)
+
+class OptsDict(dict):
+    """a dict subclass without behaviour of its own"""
+
+
+class MissingDict(dict):
+    """a dict subclass whose lookups of absent keys have a side effect (inserts and returns a fresh section)"""
+
+    def __missing__(self, k):
+        self[k] = {}
+        return self[k]
+
+
+class MissingZero(dict):
+    """a dict subclass that answers 0 for absent keys (no insertion)"""
+
+    def __missing__(self, k):
+        return 0
+
+
+class FrozenOptions(collections.abc.Mapping):
+    """a minimal read-only user Mapping (not a dict subclass)"""
+
+    def __init__(self, data):
+        self._data = dict(data)
+
+    def __getitem__(self, k):
+        return self._data[k]
+
+    def __iter__(self):
+        return iter(self._data)
+
+    def __len__(self):
+        return len(self._data)
+
+
+def _none():
+    return None
+
+
+def _chain(d, shadow):
+    ks = sorted(d)
+    n = 3 if len(ks) >= 3 else 2
+    maps = [{k: d[k] for k in ks[i::n]} for i in range(n)]
+    if shadow:       # lower maps also hold OTHER values for the keys an upper map defines: the upper one counts
+        for i in range(1, n):
+            for j in range(i):
+                for k in maps[j]:
+                    maps[i][k] = ("shadowed", i)
+    return collections.ChainMap(*maps)
+
+
+MAPPING_KINDS = {
+    "ordered": lambda d: collections.OrderedDict((k, d[k]) for k in sorted(d, reverse=True)),
+    "subclass": OptsDict,
+    "ddict": lambda d: collections.defaultdict(dict, d),
+    "dint": lambda d: collections.defaultdict(int, d),
+    "dnone": lambda d: collections.defaultdict(_none, d),
+    "missing": MissingDict,
+    "missing0": MissingZero,
+    "chain": lambda d: _chain(d, False),
+    "chain_shadow": lambda d: _chain(d, True),
+    "userdict": collections.UserDict,
+    "mapping": FrozenOptions,
+}
+KIND_NAMES = sorted(MAPPING_KINDS)
+NON_DICT_KINDS = ["chain", "chain_shadow", "userdict", "mapping"]
+
+
+def realise(kind, d):
+    """the plain dictionary d handed over as a mapping of the given kind (None / 'dict': as it is)"""
+    if kind in (None, "dict"):
+        return d
+    return MAPPING_KINDS[kind](d)
 
 
 def _labrea():
@@ -275,8 +364,8 @@ class World:
             self.label(self.fobj[g], f"f{g}")
         return self.fobj[g]
 
-    def pyopts(self, o):
-        return {key(k): self.val(v) for k, v in o}
+    def pyopts(self, o, kind=None):
+        return realise(kind, {key(k): self.val(v) for k, v in o})
 
     def disp_obj(self, e, allow_str=False):
         L = self.L
@@ -367,13 +456,13 @@ class World:
             self.D[op[1]].set_dispatch(self.disp_obj(op[2]))
             return "ok"
         if k == "with_options":
-            _, d2, d, p = op
-            obj = self.D[d].with_options(self.pyopts(p))
+            _, d2, d, p = op[:4]
+            obj = self.D[d].with_options(self.pyopts(p, op[4] if len(op) > 4 else None))
             self.register_ds(d2, obj, fresh_effect=False)
             self.cache_label[d2] = self.cache_label[d]
             return "ok"
         if k == "eval":
-            return self.show_eval(self.do_eval(op[1], op[2]))
+            return self.show_eval(self.do_eval(op[1], op[2], op[4] if len(op) > 4 else None))
         if k == "interface":
             _, i, e, ms = op[:4]
             istyle = op[4] if len(op) > 4 else None
@@ -447,10 +536,10 @@ class World:
             return "ok"
         raise AssertionError(op)
 
-    def do_eval(self, d, o):
+    def do_eval(self, d, o, kind=None):
         start = len(self.events)
         try:
-            r = self.D[d].evaluate(self.pyopts(o))
+            r = self.D[d].evaluate(self.pyopts(o, kind))
         except Exception as e:  # noqa
             return ("e", self.classify(e))
         miss = ("miss", self.cache_label[d]) in self.events[start:]
@@ -792,7 +881,7 @@ def run_impl(L, sc):
         before = w.raw_tables() if k == "implement" else None
         if k == "eval":
             start = len(w.events)
-            got = w.do_eval(op[1], op[2])
+            got = w.do_eval(op[1], op[2], op[4] if len(op) > 4 else None)
             obs = w.show_eval(got)
             stats["evals"] += 1
             missed = {e[1] for e in w.events[start:] if e[0] == "miss"}
@@ -923,8 +1012,9 @@ PAIR_VALS = [1, 2, 3]
 
 
 class Gen:
-    def __init__(self, rng, zone=None, enc=None, own=False, pair=False, eqval=False, styles=False):
+    def __init__(self, rng, zone=None, enc=None, own=False, pair=False, eqval=False, styles=False, optkind=False):
         self.rng = rng
+        self.optkind = optkind     # every caller / pre-set dictionary is handed over as some kind of mapping (MAPPING_KINDS)
         self.eqval = eqval         # plain-value implementations that compare == to one another (twins), re-registered under the same alias
         self.styles = styles       # every public spelling of a definition (decorators, metaclass in a class statement, metaclass called)
         self.last_value = {}       # member name -> atom of the plain value some implementation class last provided for it
@@ -1102,9 +1192,43 @@ class Gen:
         for r in nested:
             self.touched.add(r["cache"])
 
+    def mapping_kind(self):
+        r = self.rng.random()
+        if r < 0.5:
+            return self.rng.choice(NON_DICT_KINDS)
+        if r < 0.9:
+            return self.rng.choice([k for k in KIND_NAMES if k not in NON_DICT_KINDS])
+        return "dict"
+
     def eval_op(self, d, o, grp=None):
-        self.emit(["eval", d, [list(p) for p in o], grp])
+        if self.optkind:
+            self.emit(["eval", d, [list(p) for p in o], grp, self.mapping_kind()])
+        else:
+            self.emit(["eval", d, [list(p) for p in o], grp])
         self.note_eval(d, o)
+
+    def kind_tail(self):
+        """derivatives with pre-set options of datasets that dispatch, and consumers built on them (the caller's
+        mapping reaches the dispatch through one or more pre-set layers, at the entry point or below it)"""
+        rng = self.rng
+        cands = [d for d in self.ref.ds if self.ref.ds[d]["disp"][0] not in ("missing", "pair")] or list(self.ref.ds)
+        for _ in range(rng.choice([1, 1, 2])):
+            d = rng.choice(cands)
+            d2 = self.op_with_options(d)
+            self.eval_op(d2, self.options(d2, want="registered"))
+            self.eval_op(d2, self.options(d2))
+            if rng.random() < 0.6:
+                d3 = self.fresh_ds()
+                cb = None
+                if rng.random() < 0.5:
+                    cb = self.next_cb
+                    self.next_cb += 1
+                self.emit(["new", d3, ["missing"], ["d", d2], cb])      # dataset(<the derivative>): a consumer
+                if rng.random() < 0.5:
+                    d4 = self.op_with_options(d3)                      # ... itself derived again
+                    self.eval_op(d4, self.options(d2, want="registered"))
+                self.eval_op(d3, self.options(d2, want="registered"))
+                self.eval_op(d3, self.options(d2))
 
     def probe(self, d):
         """stale-hit probe: same dictionary with the dispatch value changed / removed / restored"""
@@ -1225,7 +1349,7 @@ class Gen:
             p.append([10, rng.choice([1, 2, 3])])
         if rng.random() < 0.25 and self.ref.ds[d]["disp"][0] != "missing":
             p.append([self.ref.ds[d]["disp"][1], rng.choice(VALS)])
-        self.emit(["with_options", d2, d, p])
+        self.emit(["with_options", d2, d, p] + ([self.mapping_kind()] if self.optkind else []))
         self.derived.add(d2)
         self.derived.add(d)
         return d2
@@ -1479,6 +1603,8 @@ def gen_scenario(rng, profile):
         g = Gen(rng, eqval=True, styles=rng.random() < 0.5, enc=rng.choice([None, None, "tuple"]))
     elif profile == "interface_meta":             # definitions through the metaclasses (class statement / direct call)
         g = Gen(rng, styles=True, own=rng.random() < 0.3, enc=rng.choice([None, None, "tuple"]))
+    elif profile in ("optkind", "interface_optkind"):   # dictionaries handed over as every kind of mapping
+        g = Gen(rng, optkind=True, own=rng.random() < 0.3, styles=rng.random() < 0.3, enc=rng.choice([None, None, "tuple"]))
     else:
         g = Gen(rng, zone)
     n = rng.randint(5, 30)
@@ -1488,6 +1614,8 @@ def gen_scenario(rng, profile):
         g.zone22_history(n)
     else:
         g.overload_history(n)
+    if g.optkind:
+        g.kind_tail()
     sc = g.scenario()
     sc["profile"] = profile
     return sc
@@ -1700,6 +1828,50 @@ def fixed_scenarios_r3():
     return out
 
 
+def fixed_scenarios_r4():
+    """Always-run representatives of the round-4 family (the random streams 'optkind' / 'interface_optkind' draw from
+    it): one history per kind of mapping; the caller's dictionary reaches the dispatch of a dataset / an interface
+    member through pre-set layers (with_options derivatives, themselves given as that kind), at the entry point and
+    below a consumer."""
+    rd = dict(reads=[[10, None]], bad=None)
+    r2 = dict(reads=[[10, 2], [11, 1]], bad=None)
+    out = []
+    for j, kind in enumerate(KIND_NAMES):
+        e = [["key", 20, "str"], ["keydef", 20, 5], ["keydom", 20, None, [2, 3, 5, 6]], ["dataset", 20, None, [4]]][j % 4]
+        enc = "tuple" if (j % 3 == 2 and e[0] != "dataset") else None
+        sc = dict(profile="fixed:optkind", impls={"1": rd, "2": rd, "3": r2, "4": rd, "5": rd}, ops=[
+            ["new", 1, e, ["f", 1], 7],
+            ["overload", 1, [5], 2, 2, False], ["register", 1, 6, ["f", 3]],
+            ["with_options", 3, 1, [[30, 1]], kind],
+            ["eval", 3, [[10, 1], [20, 5]], None, kind], ["eval", 3, [[10, 1], [20, 6]], None, kind],
+            ["eval", 3, [[10, 1], [20, 3]], None, kind], ["eval", 3, [[10, 1]], None, kind],
+            ["new", 4, ["missing"], ["d", 3], 8],
+            ["eval", 4, [[10, 2], [11, 2], [20, 6]], None, kind], ["eval", 4, [[10, 2], [20, 5]], None, kind],
+            ["with_options", 5, 4, [[11, 2], [30, 2]], kind],
+            ["eval", 5, [[10, 3], [20, 6]], None, kind], ["eval", 1, [[10, 3], [20, 6]], None, kind],
+            ["new", 6, e, None, None],
+            ["overload", 6, [5], 7, 4, False],
+            ["with_options", 8, 6, [[30, 3]], kind],
+            ["eval", 8, [[10, 1], [20, 5]], None, kind], ["eval", 8, [[10, 1], [20, 2]], None, kind], ["eval", 6, [[10, 1], [20, 5]], None, kind],
+        ])
+        if enc:
+            sc["enc"] = enc
+        out.append(sc)
+        out.append(dict(profile="fixed:optkind_interface", impls={"1": rd, "2": rd, "3": r2, "4": rd, "5": dict(reads=[], bad=None)}, ops=[
+            ["interface", 1, ["key", 20, "str"] if j % 2 else ["keydef", 20, 6], [[101, "abstract", 1, None], [102, "default", 2, 1], [103, "value", 3, 5]]],
+            ["implement", [1], [5], [[101, ["f", 2], "func"], [102, ["f", 3], "func"]], "single"],
+            ["implement", [1], [6], [[101, ["f", 4], "func"]], "list"],
+            ["with_options", 4, 1, [[30, 1]], kind], ["with_options", 5, 2, [[30, 1], [11, 2]], kind], ["with_options", 6, 3, [[30, 1]], kind],
+            ["eval", 4, [[10, 1], [20, 5]], 1, kind], ["eval", 5, [[10, 1], [20, 5]], 1, kind], ["eval", 6, [[10, 1], [20, 5]], 1, kind],
+            ["eval", 4, [[10, 2], [20, 6]], 1, kind], ["eval", 5, [[10, 2], [20, 6]], 1, kind],
+            ["eval", 4, [[10, 2], [20, 3]], 1, kind], ["eval", 5, [[10, 2], [20, 3]], 1, kind],
+            ["new", 7, ["missing"], ["d", 4], 9],
+            ["eval", 7, [[10, 3], [20, 5]], None, kind], ["eval", 7, [[10, 3], [20, 6]], None, kind], ["eval", 7, [[10, 3]], None, kind],
+            ["eval", 1, [[10, 3], [20, 6]], 1, kind],
+        ]))
+    return out
+
+
 def pair_scenarios():
     """Exhaustive small scope: every dispatch form x every ordered pair of dictionaries over
     {dispatch key absent / registered 5 / registered 6 / unregistered 3 / 4} x {K10 = 1, 2} x
@@ -1771,6 +1943,12 @@ def run(ctx):
     for profile, cnt in n3.items():
         for _ in range(cnt):
             scs.append(gen_scenario(rng, profile))
+    # round-4 input family (generated after everything older): dictionaries handed over as every kind of mapping
+    scs += fixed_scenarios_r4()
+    n4 = dict(optkind=70, interface_optkind=50) if ctx.quick else dict(optkind=1500, interface_optkind=1200)
+    for profile, cnt in n4.items():
+        for _ in range(cnt):
+            scs.append(gen_scenario(rng, profile))
     res = check_scenarios(ctx, L, scs, "Cases_C07")
     mism = [r["mismatch"] for r in res if r["mismatch"]]
     violations = [v for r in res for v in r["violations"]]
@@ -1791,7 +1969,8 @@ def run(ctx):
     dist = dict(profiles={}, ops={}, evals=0, hits=0, failing_evals=0, rejected_definitions=0, registrations=0,
                 lengths={}, zone_tagged={"D19": 0, "D22": 0}, encodings={}, oracle_only_scenarios=0,
                 bare_tuple_alias_overloads=0, members_with_own_dispatch=0,
-                twin_value_registrations=0, definitions_by_spelling={}, registrations_via_overloads_object=0)
+                twin_value_registrations=0, definitions_by_spelling={}, registrations_via_overloads_object=0,
+                dictionaries_by_mapping_kind={})
     distinct = set()
     evaluations = 0
     for sc, r in zip(scs, res):
@@ -1815,6 +1994,9 @@ def run(ctx):
                 dist["members_with_own_dispatch"] += sum(1 for m in op[3] if m[1] == "existing" and m[2] in own)
         for op in sc["ops"]:
             dist["ops"][op[0]] = dist["ops"].get(op[0], 0) + 1
+            if op[0] in ("eval", "with_options") and len(op) > 4:
+                mk = f"{'caller' if op[0] == 'eval' else 'pre-set'}:{op[4]}"
+                dist["dictionaries_by_mapping_kind"][mk] = dist["dictionaries_by_mapping_kind"].get(mk, 0) + 1
         ln = len(sc["ops"])
         dist["lengths"][str(ln // 5 * 5)] = dist["lengths"].get(str(ln // 5 * 5), 0) + 1
         st = r["stats"]
@@ -1840,7 +2022,10 @@ def run(ctx):
                 "with_options / interface definition incl. members that already have a dispatch and registrations of their own / implementation incl. multi-interface and rejected ones / "
                 "evaluate, with stale-hit probes changing only the dispatch value; scalar and composite (tuple) dispatch values and aliases, bare and listed; "
                 "plain-Value implementations that compare == to the one they replace (same number, another numeric type), compared type-aware; "
-                "interfaces and implementations defined by the decorators, by a class statement with the metaclass, or by calling the metaclass); "
+                "interfaces and implementations defined by the decorators, by a class statement with the metaclass, or by calling the metaclass; "
+                "caller and pre-set dictionaries handed over as every kind of mapping the unchanged library accepts at the top level of a dataset call - OrderedDict, "
+                "dict subclasses incl. defaultdict and __missing__, ChainMap over several maps with shadowed entries, UserDict, a user Mapping - reaching a "
+                "dispatch through with_options layers at the entry point and below consumers); "
                 "evaluations = operations run on both sides; a history is non-trivial when it has >= 2 "
                 "evaluations, >= 1 registration and >= 1 successful evaluation; distinct by hash of (implementation table, operations)",
         "samples": samples,
@@ -1856,6 +2041,7 @@ def run(ctx):
             "the 'tuple' and 'tupleds' realisations are bijections on the atoms, so the model term of such a history is the scalar one; the two-option dispatch form ('pair') has no model counterpart and is checked by the oracle only",
             "hit/miss of an evaluation is observed through a dataset effect (runs exactly when the value is computed)",
             "twin implementation atoms (g >= 1000) are realised as the number g % 1000 in another numeric type; the model sees them as unrelated atoms, the oracle compares results type-aware, so 'the last registration wins' is checked even when the registered Values compare ==",
+            "the kind of mapping a dictionary is handed over as (round 4) does not change the history's model term: Options is Mapping[str, JSON], the reference and the model see the key -> value function only; types.MappingProxyType is left out (the unchanged library raises MixError on it)",
             "a dataset is never (transitively) registered as its own implementation (Python recurses forever; the model runs out of fuel)",
             "reference for with_options derivatives: they share the base's table object and cache; set_dispatch on either side unshares the table (the model records the sharing as the code has it)",
         ],
